@@ -369,10 +369,14 @@ pub fn run(ctx: &mut Ctx, c07: bool) {
                 bufcap: *rng.pick(&caps),
                 allow_unmatched_ends: rng.chance(1, 4),
                 skip_events: if rng.chance(1, 6) { rng.range(1, 3) } else { 0 },
+                fail_after: 0,
             }
         } else {
             RCfg { bufcap: if rng.chance(1, 4) { *rng.pick(&caps) } else { 0 }, ..RCfg::default() }
         };
+        // a tenth of the inputs arrive through a stream that breaks with an I/O error part-way
+        let total: usize = docs.last().map(|d| d.len()).unwrap_or(0);
+        let cfg = if total > 2 && rng.chance(1, 10) { RCfg { fail_after: rng.range(1, total), bufcap: *rng.pick(&[1usize, 3, 7, 64]), ..cfg } } else { cfg };
         let opts = if c07 {
             vec![if rng.chance(1, 2) { Opts::quick_xml() } else { Opts::serde_xml_rs() }.sorted(rng.chance(1, 2))]
         } else {
@@ -400,6 +404,9 @@ pub fn run(ctx: &mut Ctx, c07: bool) {
             hist.add(&format!("reader:trim={},expand={},check_end={},cap={}", cfg.trim_text, cfg.expand_empty, cfg.check_end_names, cfg.bufcap));
             hist.add(&format!("reader:allow_unmatched_ends={},caller_read_first={}", cfg.allow_unmatched_ends, cfg.skip_events));
         }
+        if cfg.fail_after > 0 {
+            hist.add("reader:io-error-part-way");
+        }
         for (o, r) in &b.renders {
             if let Err(m) = r {
                 fails.push(json::obj(vec![("check", json::s("render-panic")), ("documents", J::A(docs.iter().map(|x| json::bytes(x)).collect())), ("options", o.json()), ("what", json::s(m))]));
@@ -418,6 +425,23 @@ pub fn run(ctx: &mut Ctx, c07: bool) {
         }
         sh.push(b.term, b.descr);
         evaluations += 1;
+    }
+    // ---- state carried from call to call on one thread
+    {
+        let mut inputs: Vec<Vec<u8>> = vec![];
+        let bad: [&[u8]; 8] = [b"<a x=1>", b"<a x='1' x='2'/>", b"<a><b></a>", b"<a>\xFF</a>", b"<a><b><c><d x=1/></c></b></a>", b"</a>", b"<a><!-- ", b"<a><b x='1' x='2'><c/></b></a>"];
+        let good: [&[u8]; 3] = [b"<a><b/></a>", b"<r x='1'>t<k/><k/></r>", b"<a/>"];
+        for i in 0..(if ctx.thorough { 6000 } else { 2400 }) {
+            inputs.push(if i % 5 == 4 { good[i % 3].to_vec() } else { bad[(i * 7) % 8].to_vec() });
+        }
+        let reference: Vec<Vec<u8>> = vec![
+            b"<order id='1'><customer vip='y'><name>n</name></customer><item sku='s'>t</item><item sku='u'/></order>".to_vec(),
+            b"<order id='2' rush='1'><item sku='s'><note>x</note></item></order>".to_vec(),
+        ];
+        if let Some(what) = history_check(&inputs, &reference, 100) {
+            fails.push(json::obj(vec![("check", json::s("history-dependence")), ("what", json::s(what)), ("documents", J::A(reference.iter().map(|x| json::bytes(x)).collect()))]));
+        }
+        hist.addn("history-check-calls-on-one-thread", inputs.len() as i64);
     }
     if samples.is_empty() {
         samples.push(json::s("(see replay files / shards)"));
